@@ -23,6 +23,7 @@ import (
 type keyStyle struct {
 	kind   int
 	prefix string
+	groups []string // kind 4: the long prefixes of the key groups
 }
 
 var alpha3 = []string{"\x00", "a", "\xfe"}
@@ -33,6 +34,8 @@ func (ks keyStyle) key(n int) string {
 		return fmt.Sprintf("%07d", n)
 	case 1, 3: // long shared prefix / big keys
 		return ks.prefix + fmt.Sprintf("%05d", n)
+	case 4: // groups of keys, each group with its own long prefix
+		return ks.groups[n%len(ks.groups)] + fmt.Sprintf("%04d", n/len(ks.groups))
 	default: // all strings over a 3 letter alphabet by length: "", prefixes, extensions
 		s := ""
 		for n > 0 {
@@ -45,7 +48,7 @@ func (ks keyStyle) key(n int) string {
 }
 
 func genStyle(t *rapid.T) keyStyle {
-	kind := gen.Pick(t, "keystyle", []int{0, 0, 0, 0, 1, 1, 1, 2, 2, 2, 2, 3})
+	kind := gen.Pick(t, "keystyle", []int{0, 0, 0, 0, 1, 1, 1, 2, 2, 2, 2, 3, 4, 4})
 	ks := keyStyle{kind: kind}
 	switch kind {
 	case 1:
@@ -65,6 +68,10 @@ type c10ctx struct {
 	rec     *ev.Rec
 	rfWhat  string // text of the known finding about RangeFrac > 1
 	maxFrac float64
+	// known finding: a half of a split leaf exceeds the node size
+	halfKnown bool
+	halfWhat  string
+	bulk      bool // the tree being verified came from Builder alone
 }
 
 func (c *c10ctx) must(what string, f func()) {
@@ -122,6 +129,46 @@ func (c *c10ctx) verifyTree(what string, bt *btree.T, m *omap, touched []string,
 	if i, ok := slotsEq(viaCheck, all); !ok {
 		t.Fatalf("%s: leaf contents differ from the model at %d: tree%s model%s", what, i, showAround(viaCheck, i), showAround(all, i))
 	}
+	// size invariants of every node, judged by walking the tree (not by Check):
+	// no node larger than the node size limit, none with more entries than the
+	// split count, all leaves on the last level, no empty node except an empty root
+	c.must(what+": node walk", func() {
+		limit, split := btree.VerifMaxNodeSize, btree.VerifSplitCount()
+		nodes, nearFull := 0, 0
+		bt.VerifWalk(func(level int, leaf bool, size, nkeys, noffs, prefixLen int) {
+			nodes++
+			kind := "tree node"
+			if leaf {
+				kind = "leaf"
+			}
+			if size > limit && leaf && c.halfKnown && !c.bulk {
+				// MergeAndSave writes leaves through write (checked) and splitTo
+				// (unchecked): an oversize leaf of a merged tree is a split half
+				c.rec.Excluded("split-half-over-node-size")
+				c.rec.Known(c.halfWhat)
+				c.rec.Label("oversize_split_half_keys_" + bucket(nkeys, 3, 10, 50))
+			} else if size > limit {
+				t.Fatalf("%s: %s on level %d has %d bytes, the node size limit is %d (%d keys, stored prefix %d bytes)", what, kind, level, size, limit, nkeys, prefixLen)
+			}
+			if noffs > split {
+				t.Fatalf("%s: %s on level %d has %d entries, the split count is %d", what, kind, level, noffs, split)
+			}
+			if leaf != (level == bt.TreeLevels()) {
+				t.Fatalf("%s: %s on level %d of a tree with %d tree levels", what, kind, level, bt.TreeLevels())
+			}
+			if noffs == 0 && !(level == 0 && m.len() == 0) {
+				t.Fatalf("%s: empty %s on level %d", what, kind, level)
+			}
+			if prefixLen > 255 {
+				t.Fatalf("%s: leaf with a stored prefix of %d bytes", what, prefixLen)
+			}
+			if leaf && size*10 >= limit*9 {
+				nearFull++
+			}
+		})
+		c.rec.LabelN("node_walked", nodes)
+		c.rec.LabelN("leaf_within_10pct_of_size_limit", nearFull)
+	})
 	// iteration, both directions
 	var fwd, bwd []slotv
 	c.must(what+": iterate", func() {
@@ -440,12 +487,16 @@ func TestC10(t *testing.T) {
 
 	e, rfKnown := kf.Known("C10", "rangefrac-above-one")
 	e8, lv8Known := kf.Known("C10", "btree-more-than-8-levels")
+	eh, halfKnown := kf.Known("C10", "split-half-over-node-size")
 
 	rt.Check(t, rec, "batches", 800, 10000, func(t *rapid.T) {
-		c := &c10ctx{t: t, rec: rec, rfWhat: e.What}
+		c := &c10ctx{t: t, rec: rec, rfWhat: e.What, halfKnown: halfKnown, halfWhat: eh.What}
 		split := gen.Pick(t, "split", []int{3, 4, 5, 5, 7, 8, 12, 20, 50, 100, 100})
-		defer btree.SetSplit(btree.SetSplit(split))
 		ks := genStyle(t)
+		if ks.kind == 4 { // long prefixes only fill a leaf with key data at large split factors
+			split = gen.Pick(t, "gsplit", []int{100, 100, 100, 100, 50, 20, 8})
+		}
+		defer btree.SetSplit(btree.SetSplit(split))
 		maxKeys := 400
 		if ks.kind == 3 {
 			maxKeys = 40
@@ -455,10 +506,17 @@ func TestC10(t *testing.T) {
 		g := &c10gen{t: t, ks: ks, cur: newOmap(), uni: 2*n0 + 20}
 		inclPct := gen.Pick(t, "includepct", []int{30, 50, 80, 100})
 		var keys []string
-		for i := 0; len(keys) < n0 && i <= g.uni; i++ {
+		for i := 0; ks.kind != 4 && len(keys) < n0 && i <= g.uni; i++ {
 			if g.uni-i <= n0-len(keys) || gen.Chance(t, "include", inclPct) {
 				keys = append(keys, ks.key(i))
 			}
+		}
+		if ks.kind == 4 {
+			var crit int
+			keys, crit = genGrouped(t, &ks, split)
+			g.ks, g.uni = ks, 2*len(keys)+20
+			rec.LabelN("bulk_prefix_shortening_key_on_full_leaf", crit)
+			rec.LabelIf(crit > 0, "bulk_load_with_prefix_shortening_key_on_full_leaf")
 		}
 		sort.Strings(keys)
 		st := stor.HeapStor(64 * 1024)
@@ -478,7 +536,9 @@ func TestC10(t *testing.T) {
 			}
 			bt = b.Finish()
 		})
+		c.bulk = true
 		c.verifyTree("after Builder", bt, g.cur, nil, true, rfKnown)
+		c.bulk = false
 		builtLevels := bt.TreeLevels()
 		rec.Label(fmt.Sprintf("built_levels_%d", builtLevels))
 
@@ -488,7 +548,7 @@ func TestC10(t *testing.T) {
 		}
 		old := version{bt, g.cur.clone()}
 		nb := (1 + gen.Uniform(t, "nbatches", 30))
-		if gen.Uniform(t, "few", 4) > 0 || ks.kind == 3 {
+		if gen.Uniform(t, "few", 4) > 0 || ks.kind >= 3 {
 			nb = min(nb, 6)
 		}
 		nt := false
@@ -517,7 +577,9 @@ func TestC10(t *testing.T) {
 			c.verifyTree(fmt.Sprintf("after batch %d (+%d =%d -%d, split %d)", bi, adds, upds, dels, split), bt2, g.cur, touched, g.cur.len() <= 150, rfKnown)
 			// the previous version is untouched (path copying)
 			if bi == nb-1 || bi%4 == 1 {
+				c.bulk = bi == 0
 				c.verifyTree(fmt.Sprintf("version before batch %d re-read", bi), bt, before, nil, false, rfKnown)
+				c.bulk = false
 			}
 			heightChange := bt2.TreeLevels() != lv
 			both := addCluster > 2*split && delRun >= 2*split
@@ -534,7 +596,9 @@ func TestC10(t *testing.T) {
 			fmt.Fprintf(&shape, "|+%d=%d-%d r%d c%d l%d", adds, upds, dels, delRun, addCluster, bt2.TreeLevels())
 			bt = bt2
 		}
+		c.bulk = true
 		c.verifyTree("first version re-read at the end", old.bt, old.m, nil, false, rfKnown)
+		c.bulk = false
 		fmt.Fprintf(&shape, "|%x", hashKeys(g.cur.keys))
 		rec.Case(nt, shape.String())
 		rec.Label(fmt.Sprintf("split_%s", bucket(split, 5, 20, 50, 100)))
@@ -555,4 +619,125 @@ func short300(s string) string {
 		return s[:300] + "..."
 	}
 	return s
+}
+
+// ------------------------------------------------- grouped bulk loads
+
+// leafSim is the harness's own picture of how a bulk load fills leaves
+// (a leaf takes keys while it has at most split entries and at most
+// nodeLimit bytes with the shared prefix, up to 255 bytes, stored once).
+// It only steers the generator (where group boundaries fall); the judgement
+// is the node walk.
+type leafSim struct {
+	split int
+	n     int
+	cpl   int // common prefix length of the keys in the leaf
+	raw   int // sum of key lengths
+	first string
+}
+
+const nodeLimit = 8192
+
+func commonLen(a, b string) int {
+	n := 0
+	for n < len(a) && n < len(b) && a[n] == b[n] {
+		n++
+	}
+	return n
+}
+
+func (s *leafSim) sizeWith(k string) (size, cpl int) {
+	cpl = len(k)
+	if s.n > 0 {
+		cpl = min(s.cpl, commonLen(s.first, k))
+	}
+	pre := min(255, cpl)
+	n := s.n + 1
+	return 4 + 7*n + pre + s.raw + len(k) - n*pre, cpl
+}
+
+// add returns whether k went into the current leaf, whether it shortened
+// the leaf's shared prefix, and whether the leaf already held more key data
+// than fits a node uncompressed.
+func (s *leafSim) add(k string) (same, shortened, dataFull bool) {
+	size, cpl := s.sizeWith(k)
+	if s.n+1 > s.split || size > nodeLimit {
+		*s = leafSim{split: s.split, n: 1, cpl: len(k), raw: len(k), first: k}
+		return false, false, false
+	}
+	shortened = s.n > 0 && cpl < min(255, s.cpl)
+	dataFull = s.raw+len(k) > nodeLimit-7*100
+	s.n++
+	s.cpl = cpl
+	s.raw += len(k)
+	if s.n == 1 {
+		s.first = k
+	}
+	return true, shortened, dataFull
+}
+
+func (s *leafSim) fill() int { sz, _ := s.sizeWith(""); return sz }
+
+// genGrouped generates a sorted bulk load made of 2-6 groups of keys; the
+// keys of a group share a prefix of 100-4000 bytes, the groups share 0..p-1
+// leading bytes. A group ends at a generated position: after a uniform number
+// of keys, or 0-2 keys after the simulated leaf is full / within 10 % of the
+// size limit / holds more key data than an uncompressed node could.
+// crit counts the keys that shorten the shared prefix of a leaf which already
+// holds more key data than fits a node without prefix compression.
+func genGrouped(t *rapid.T, ks *keyStyle, split int) (keys []string, crit int) {
+	ng := 2 + gen.Uniform(t, "ngroups", 5)
+	plen := make([]int, ng)
+	div := make([]int, ng)
+	for i := range ng {
+		plen[i] = gen.Pick(t, "grouplen", []int{100, 120, 120, 200, 254, 255, 256, 400, 1000, 2000, 4000})
+		div[i] = gen.Pick(t, "groupdiv", []int{0, 5, 50, plen[i] / 2, plen[i] - 2, plen[i] - 1})
+	}
+	sort.Sort(sort.Reverse(sort.IntSlice(div)))
+	sim := leafSim{split: split}
+	for i := range ng {
+		d := min(div[i], plen[i]-1)
+		if i > 0 {
+			d = min(d, div[i-1])
+		}
+		div[i] = d
+		// groups ascend: the byte at the divergence position is above the shared filler
+		prefix := strings.Repeat("c", d) + string(rune('d'+i)) + strings.Repeat(string(rune('m'+i)), plen[i]-d-1)
+		ks.groups = append(ks.groups, prefix)
+		maxn := max(3, min(300, 90000/plen[i]))
+		mode := gen.Pick(t, "groupend", []string{"uniform", "uniform", "full", "nearfull", "datafull", "datafull"})
+		want := 1 + gen.Uniform(t, "groupsize", maxn)
+		extra := gen.Uniform(t, "groupextra", 3)
+		for j := 0; j < maxn; j++ {
+			k := prefix + fmt.Sprintf("%04d", 2*j) // even numbers: room for later inserts
+			if mode == "uniform" && j >= want {
+				break
+			}
+			if mode != "uniform" && j > 0 {
+				size, _ := sim.sizeWith(k)
+				full := sim.n+1 > sim.split || size > nodeLimit
+				switch mode {
+				case "nearfull":
+					full = full || size*10 >= nodeLimit*9
+				case "datafull": // more key data than an uncompressed node could hold
+					full = full || sim.raw+len(k) > nodeLimit-7*100
+				}
+				if full {
+					if extra == 0 {
+						break
+					}
+					extra--
+				}
+			}
+			same, shortened, dataFull := sim.add(k)
+			if same && shortened && dataFull {
+				crit++
+			}
+			keys = append(keys, k)
+		}
+	}
+	if !sort.StringsAreSorted(keys) {
+		t.Fatalf("harness: grouped bulk load is not sorted")
+	}
+	return keys, crit
 }
